@@ -4,6 +4,7 @@ package carddav
 
 import (
 	"context"
+	"errors"
 	"fmt"
 	"io"
 	"io/ioutil"
@@ -228,8 +229,31 @@ func VerifH_C10_ClientMultiGet() {
 			vrt.Assume(paths[i] != paths[j])
 		}
 	}
+	// optionally one more href that the backend refuses with its own status
+	// (507 has a standard reason phrase, 509 has none)
+	failCode := 0
+	if vrt.Choose("failing-href", 2) == 1 {
+		failCode = []int{404, 507, 509}[vrt.Choose("failing-code", 3)]
+		fc := failCode
+		bad := "/dav/u/contacts/ab/Z-missing"
+		paths = append(paths, bad)
+		be.getErr = func(path string) error {
+			if path == bad {
+				return webdav.NewHTTPError(fc, fmt.Errorf("refused"))
+			}
+			return nil
+		}
+	}
 	c, _ := newLoopClient(be)
 	got, err := c.MultiGetAddressBook(context.Background(), "/dav/u/contacts/ab/", &AddressBookMultiGet{Paths: paths, DataRequest: AddressDataRequest{AllProp: true}})
+	if failCode != 0 {
+		// a resource reported with a non-success status is surfaced as an
+		// error carrying the backend's status, never as valid data
+		var he *internal.HTTPError
+		vrt.Assert(err != nil && errors.As(err, &he) && he.Code == failCode, "MultiGetAddressBook: a failing href is surfaced as an error with the backend's status")
+		vrt.Reach("client-multiget/failed-href")
+		return
+	}
 	vrt.Assert(err == nil, "MultiGetAddressBook succeeds for existing objects")
 	if err != nil {
 		return
